@@ -122,7 +122,7 @@ func MavenDomain(r *rand.Rand) string {
 		q := Pick(r, append(append([]string{}, MavenKnownQuals...), MavenUnknownQuals...)...)
 		s += Pick(r, "-", "-", "") + q
 		if r.Intn(2) == 0 {
-			s += Pick(r, "-", "") + Pick(r, "0", "1", "2", "10")
+			s += Pick(r, "-", "") + Pick(r, "1", "2", "3", "10")
 		}
 	case x == 5:
 		s += "-" + Pick(r, MavenReleaseQuals...)
@@ -411,6 +411,11 @@ func MavenInDomain(s string) bool {
 	}
 	switch strings.ToLower(m[3]) {
 	case "ga", "final", "release":
+		return false
+	}
+	// A zero after the qualifier (beta0, rc-0) is a zero-equivalent token in
+	// the region where Maven 3.8.7 changed the rules the library follows.
+	if m[4] != "" && strings.Trim(m[4], "-0") == "" {
 		return false
 	}
 	return true
